@@ -363,6 +363,11 @@ func c20(r *core.Run) {
 	r.Trusted = append(r.Trusted, "in-process loader core/ext_c20.go: go/parser + go/types + ssautil.BuildPackage; imports served from export data via one read-only packages.Load in the main module")
 
 	ext, err := p.LoadExt(godMod, strxRel, godCfgRel, fmtRel)
+	defer func() {
+		if err == nil && ext != nil {
+			c20Extra(r, ext, strxRel)
+		}
+	}()
 	r.Check("D0/loader/leaf-packages-type-check", "tools/god/util/format, util/stringx and config parse, type-check (zero errors) and build to SSA in-process", func(o *core.O) {
 		if err != nil {
 			o.Unres("%v", err)
